@@ -244,6 +244,9 @@ def rules(rep, facts):
         r4_key_identity(rep, facts)
         r6_sorting(rep, facts)
         r7_bulk_insert(rep, facts)
+        from .rules_c08 import r2_inplace
+        r2_inplace(rep, facts)
+        rep.relabel('C08/R2', 'C16/R8', 'an existing key keeps its position on insertion (ordered-map law): ')
     if 'toml' in facts.crates:
         r5_map_delegate(rep, facts)
 
